@@ -686,7 +686,7 @@ def main():
         replay(c, rp)
     thorough = c.tier == "thorough"
     n_scen = 30 if thorough else 3
-    cap = 400 if thorough else 120
+    cap = 300 if thorough else 120
     jobs = []
     for writer in S.WRITERS:
         for scen in range(n_scen):
